@@ -4,7 +4,10 @@
      _castLexicalToPython, _castPythonToLiteral, the _well_formed_* checkers,
      _parseBoolean, _normalise_XSD_STRING, _strip_and_collapse_whitespace,
      Literal.__eq__ / Literal.eq (no language tags),
-   with CPython's int(str), Decimal(str), format(Decimal, "f"), str.strip.
+   with CPython's int(str), Decimal(str), format(Decimal, "f"), str.strip
+   - the code as repaired by the "fix:" commits a107abc9 (float lexicaliser; only the
+   rule table is affected here), d92a3854 (normalizedString/token: value = processed
+   string, strip(" ")) and d1e79be9 (normalize() of binary values; outside this model).
    The datatype table, the rule list and the character classes come from
    Gen/Tables_literal.v (reflected from the tree under test on every run).
    Second half: the XSD side, written independently (lexical spaces and
